@@ -10,7 +10,7 @@ file is opened), the logging configuration initialize_main_logger sets up.  This
   * enumerates the configurations (every discovered variable x plausible values, working directories,
     every option the harness has no special knowledge of x plausible values, --tags/--datamodels),
   * draws the RUN SHAPE of one invocation (input format csv/json/xlsx, several inputs, how the output
-    path is written, subcommand alias, option spelling, input path style) from the rng,
+    path is written, subcommand alias, option spelling, input path style, `python -m rpft.cli` or the `rpft` script) from the rng,
   * runs the real command (`python -m rpft.cli <args>`) for a workbook under an invocation.
 """
 import importlib.util
@@ -38,7 +38,7 @@ def load_configs_module():
 
 C = load_configs_module()
 
-DEFAULT_SHAPE = dict(fmt="csv", multi=None, out="rel", sub=None, long_opts=False, eq_form=False, inp="rel")
+DEFAULT_SHAPE = dict(fmt="csv", multi=None, out="rel", sub=None, long_opts=False, eq_form=False, inp="rel", launch="module")
 DEFAULT_CFG = dict(name="default")
 
 
@@ -70,7 +70,9 @@ def shape_dimensions(disc):
         if s != "create_flows":
             dims.append((f"subcommand={s}", dict(sub=s)))
     dims += [("long options", dict(long_opts=True)), ("--opt=value", dict(long_opts=True, eq_form=True)),
-             ("input=absolute", dict(inp="abs")), ("input=trailing slash", dict(inp="slash"))]
+             ("input=absolute", dict(inp="abs")), ("input=trailing slash", dict(inp="slash")),
+             # the `rpft` console script of pyproject.toml ([project.scripts] rpft = "rpft.cli:main") instead of `python -m rpft.cli`
+             ("launcher=rpft script", dict(launch="script"))]
     return dims
 
 
@@ -194,7 +196,9 @@ def run_cli(wb, sentinel, inv, disc):
             env["PYTHONPATH"] = common.SRC + os.pathsep + root
         env.update(m["env"])
         try:
-            p = subprocess.run([common.PY, "-m", "rpft.cli"] + argv, cwd=cwd, env=env, stdout=subprocess.PIPE,
+            launcher = [common.PY, "-m", "rpft.cli"] if shape["launch"] == "module" else \
+                [common.PY, "-c", "import sys; from rpft.cli import main; sys.argv[0] = 'rpft'; sys.exit(main())"]
+            p = subprocess.run(launcher + argv, cwd=cwd, env=env, stdout=subprocess.PIPE,
                                stderr=subprocess.PIPE, timeout=180, text=True, errors="replace")
             status, stderr = p.returncode, p.stderr
         except subprocess.TimeoutExpired:
